@@ -227,8 +227,8 @@ class Unit:
         file, path, it = self.get_item(spec)
         label = self.label_of(path, file)
         text = it.text
-        mr = re.match(r'(?s)\s*pub const (\w+): Range<usize> =\s*(?:range|create_range)\((.*),\s*(.*?)\);\s*$', text) if it.kind == 'const' else None
-        mr2 = re.match(r'(?s)\s*pub const (\w+): Range<usize> =\s*Range\s*\{\s*start:\s*(.*?),\s*end:\s*(.*?),?\s*\};\s*$', text) if it.kind == 'const' else None
+        mr = re.match(r'(?s)\s*(?:pub )?const (\w+): Range<usize> =\s*(?:range|create_range)\((.*),\s*(.*?)\);\s*$', text) if it.kind == 'const' else None
+        mr2 = re.match(r'(?s)\s*(?:pub )?const (\w+): Range<usize> =\s*Range\s*\{\s*start:\s*(.*?),\s*end:\s*(.*?),?\s*\};\s*$', text) if it.kind == 'const' else None
         if mr2:
             # R17: `const X: Range<usize> = Range { start: a, end: b }` -> `const X_START = a; const X_END = b;`
             self.rewrite_counts['R17'] = self.rewrite_counts.get('R17', 0) + 1
